@@ -27,6 +27,7 @@ import Kanzi.Drv.FSD
 import Kanzi.Drv.BinEnt
 import Kanzi.Drv.LZ
 import Kanzi.Drv.TPAQ
+import Kanzi.Drv.Huffman
 
 open Kanzi
 
@@ -203,5 +204,6 @@ def main (args : List String) : IO UInt32 := do
   | ["fpaq"] => loop stdin stdout Kanzi.Drv.fpaq; return 0
   | ["lz"] => loop stdin stdout Kanzi.Drv.lz; return 0
   | ["tpaqpred"] => loop stdin stdout Kanzi.Drv.tpaqpred; return 0
+  | ["huffman"] => loop stdin stdout Kanzi.Drv.huffman; return 0
   | ["image"] => loop stdin stdout Kanzi.Drv.image; return 0
   | _ => IO.eprintln "usage: kmodel <norm>"; return 2
